@@ -76,6 +76,7 @@ def run_check(prop, tier):
     from contracts import registry
     from . import runner, units, evidence, smt
     t0 = time.time()
+    os.environ["VERIF_TIER"] = tier      # units that scale with the tier read it (worker processes inherit the environment)
     seed = int(os.environ.get("VERIF_SEED", "0") or 0)
     spec = registry.PROPERTIES.get(prop)
     if spec is None:
